@@ -43,6 +43,10 @@ def configs(tier, seed=0):
                         continue
                     out.append({'key': '%s/%s/d%d/nonfinite%s' % (iface, alg, d, nf), 'iface': iface, 'alg': alg, 'dim': d,
                                 'variant': 'mean0' if alg == 'PCN' else ('vecscale' if alg == 'CWMH' else 'std'), 'nf': nf})
+    # base case of the assumed pre-state invariant: after initialize / reinitialize / set_state the caches belong to the current point
+    for alg in ['MH', 'CWMH', 'PCN', 'MALA', 'ULA']:
+        for how in ['initialize', 'reinitialize', 'set_state']:
+            out.append({'key': 'exp/%s/init/%s' % (alg, how), 'iface': 'exp', 'alg': alg, 'dim': 2 if alg == 'CWMH' else 1, 'variant': 'init', 'how': how, 'nf': None})
     return out
 
 
@@ -88,8 +92,56 @@ def same_state(c, cfg, got, want, what):
                   tol=1e-9, info=fk(cfg, 'state:' + what))
 
 
+def run_init(cfg, c):
+    """The invariant assumed for the pre-state of a transition is established by the ways a state comes about without a transition."""
+    import cuqi
+    d, alg, how = cfg['dim'], cfg['alg'], cfg['how']
+    dt = object if not c.concrete else float
+    E = cuqi.experimental.mcmc
+    x = c.reals('x', d)
+
+    def make(x0):
+        if alg == 'PCN':
+            prior = cuqi.distribution.Gaussian(mean=np.zeros(d), cov=1.0, geometry=d, name='x')
+            return E.PCN(mc.make_posterior(d, prior, 'L'), scale=0.5, initial_point=x0)
+        return {'MH': E.MH, 'CWMH': E.CWMH, 'MALA': E.MALA, 'ULA': E.ULA}[alg](mc.make_target(d, 'T'), scale=0.5, initial_point=x0)
+    s = make(x)
+    s.initialize()
+    if how == 'reinitialize':
+        y = x + 1.0
+        s.current_point = y
+        if alg == 'PCN':
+            s.current_likelihood_logd = mc.T(c, y, 'L')
+        else:
+            s.current_target_logd = mc.T(c, y)
+        if alg in ('MALA', 'ULA'):
+            s.current_target_grad = mc.gradT(c, y, d)
+        s.reinitialize()
+    elif how == 'set_state':
+        # a state taken from a sampler at another point, loaded into a fresh sampler of the same configuration
+        s2 = make(x + 1.0)
+        s2.initialize()
+        s2.set_state(s.get_state())
+        s = s2
+    got = [np.asarray(s.current_point, dtype=dt).ravel()]
+    exp = [x]
+    if alg == 'PCN':
+        got.append([s.current_likelihood_logd])
+        exp.append([mc.T(c, x, 'L')])
+    else:
+        got.append([s.current_target_logd])
+        exp.append([mc.T(c, x)])
+    if alg in ('MALA', 'ULA'):
+        got.append(np.asarray(s.current_target_grad, dtype=dt).ravel())
+        exp.append(mc.gradT(c, x, d))
+    c.prove_close('after %s: the cached log-density (and gradient) belong to the current point' % how, np.concatenate(got), np.concatenate(exp), info=fk(cfg, 'init-cache'))
+    c.prove_close('after %s: scale is the configured scale' % how, np.asarray(s.scale, dtype=dt).ravel(), np.ones(np.asarray(s.scale).size) * 0.5, info=fk(cfg, 'init-scale'))
+
+
 def run(cfg, c):
     import cuqi
+    if cfg.get('variant') == 'init':
+        return run_init(cfg, c)
     d, alg, iface, nf = cfg['dim'], cfg['alg'], cfg['iface'], cfg['nf']
     conc = c.concrete
     dt = object if not conc else float
